@@ -18,6 +18,7 @@ import EcModel.Lemmas.SlotsRetry
 import EcModel.Lemmas.SlotsRxDone
 import EcModel.Lemmas.SlotsCapacity
 import EcModel.Generated.Retry
+import EcModel.TxWake
 import EcModel.Lemmas.SlotsSites
 
 namespace Ec.C06
@@ -449,5 +450,40 @@ def demoSending : World := run demoW [.txNext 1]
 example : Abandon demoSending 0 0 (.dropFut 0) := .drop 2 10 10 false (by decide)
 example : (demoSending.1.slot 0).st = .sending := by decide
 example : getH demoSending.2 1 = some ⟨1, 0, .sendable⟩ := by decide
+
+end Ec.C06
+
+/-! ### Handing a (re-)queued frame to the transmit task: publish first, wake afterwards -/
+namespace Ec.C06
+
+open Ec.TxWake in
+/-- With the status published BEFORE `wake_sender()`, no run of the publishing side against a transmit task that
+    sleeps on its waker (consuming its woken bit and re-registering on every poll) ever ends with the frame
+    stranded; in every terminal state of every interleaving the frame has been claimed for transmission. -/
+theorem publish_then_wake_never_strands :
+    (∀ s ∈ allStates .publishThenWake, stranded s = false) ∧
+    (∀ s ∈ allStates .publishThenWake, terminal .publishThenWake s = true → s.tx = .claimed ∧ s.sendable = false) := by
+  decide
+
+open Ec.TxWake in
+/-- The state space explored is closed under every step (so `allStates` is ALL reachable states, not a prefix). -/
+theorem publish_wake_state_space_closed :
+    (∀ s ∈ allStates .publishThenWake, ∀ t ∈ succs .publishThenWake s, t ∈ allStates .publishThenWake) ∧
+    (∀ s ∈ allStates .wakeThenPublish, ∀ t ∈ succs .wakeThenPublish s, t ∈ allStates .wakeThenPublish) := by
+  decide
+
+open Ec.TxWake in
+/-- The opposite order strands the frame: the transmit task is woken, scans, finds nothing and goes back to sleep
+    before the status is published; nobody wakes it for the frame (seeded change C06c). -/
+theorem wake_then_publish_strands_counterexample :
+    ∃ s ∈ allStates .wakeThenPublish, stranded s = true ∧ terminal .wakeThenPublish s = true := by
+  decide
+
+/-- T1: every place of /repo that makes a frame Sendable (`mark_sendable` in `single_pdu` and the three process-data
+    cycles, the retry re-queue in `ReceiveFrameFut::poll`) calls `wake_sender()` AFTER the status is published and
+    before the frame is awaited (regenerated from the sources on every run). -/
+theorem publish_wake_order_sites :
+    Gen.allPublishThenWake = true ∧ Gen.publishWakeSites.length = 6 := by
+  decide
 
 end Ec.C06
